@@ -20,14 +20,18 @@
        by an invariant split into a compile-time and a run-time part.
        Session 4, second part: the induction is generic in the fragment and carries two more facts (`NameFrame`: nameless
        registers stay nameless / named result registers had a name; the source map stays as long as the code); proved on top
-       of it: calls of global core functions with ANY number of operands (`compile_correct_nary_calls`: operand slots held
-       together, PUSH_3 / PUSH_2 / PUSH grouping), calls through a local holding a core function (`compile_correct_local_calls`),
-       `if` (`compile_correct_if`: jumps under label patches, both branches, value used or dropped; the branch not taken through a
-       compile-only shape theorem), such a call in tail position (`compile_correct_tail_calls`: TAILCALL, next step = the return),
-       the error outcome of a call whose core function raises (`compile_correct_call_error`: same error value, same source position,
-       same effect trace).
-       NOT proved: `var` / `set`, `while` / `break`, `fn` / closures, error propagation through enclosing forms, tail position of
-       the forms other than calls, far registers (see `compile_correct_partial` for the exact list and the reasons). -/
+       of it, for the fragment literal | symbol | call of a core function (any arity; global or through a local) | do | upscope |
+       def | var | if: the value outcome (`compile_correct_nary_calls`, `compile_correct_local_calls`, `compile_correct_if`,
+       `compile_correct_var`), the TAIL-position outcome (`compile_correct_tail`, `compile_correct_tail_calls`), the ERROR outcome
+       incl. propagation (`compile_correct_call_error`, `compile_correct_error`, `compile_correct_fn_body_error`), function bodies
+       and closed statements for their funcdefs (`compile_correct_fn_body`, `compile_correct_thunk`, `compile_correct_fn_params`),
+       one `while` loop without `break` over the fragment and blocks mixing loops and forms (`compile_correct_while`,
+       `compile_correct_block_loops`), and the `set` statement (`compile_correct_set`: hinted compiles).  Several compile-ONLY
+       theorems carry what the branch / code not executed needs (`tf_shapeM`, `tf_shapeT`, `tf_shapeH`, `tf_maxM`, `tf_maxT`,
+       `tf_nobrk`, `tf_NR_b`).
+       NOT proved: `set` / loops as constructors of the fragment (assignments inside operands and loop bodies, nested loops),
+       `break`, closure creation and calls of closures, upvalues, far registers (see `compile_correct_partial` for the exact list
+       and the reasons). -/
 import JanetModel.Emit.Proofs
 import JanetModel.Bytecode.Exec
 import JanetModel.Lang.SemProps
